@@ -195,6 +195,16 @@ def resolve_callee(repo, fi, call):
                 kind, m, obj = repo.resolve(fi.mod, recv)
                 if kind == 'class' and m is not None and not m.external:
                     ci = obj
+                elif kind == 'module' and m is not None and not m.external:
+                    # ``<module of the package>.helper(..)`` / ``<module>.Class(..)``
+                    kind2, m2, obj2 = repo.resolve(m, f.attr)
+                    if kind2 == 'func' and m2 is not None and not m2.external:
+                        return obj2, 0
+                    if kind2 == 'class' and m2 is not None and not m2.external:
+                        init = repo.find_method(obj2, '__init__')
+                        if init is not None and not init.mod.external and not init.node.decorator_list:
+                            return init, 1
+                    return None, 0
             if ci is None and recv in _local_names(fi):
                 # a method call on a local of unknown class: followed when exactly one class of the module defines a
                 # method of that name (``peri.safe_get_context(..)``)
@@ -2587,7 +2597,8 @@ def _r18b(rep, repo, meta):
         for n in _walk(fi):
             nm = None
             if isinstance(n, ast.Attribute) and isinstance(n.ctx, ast.Load) and _secretish(n.attr):
-                nm = n.attr
+                if _fold_any(repo, fi, n) is None:      # (a class-level / module-level constant -- the 'secret' fragment, the marker -- is no key)
+                    nm = n.attr
             elif isinstance(n, ast.Call) and call_name(n) == 'getattr' and len(n.args) >= 2 and 'getattr' not in _local_names(fi):
                 v = _fold_str(repo, fi, n.args[1])
                 if v is not None and _secretish(v):
@@ -3015,6 +3026,22 @@ def _success_only_reads(fi, h):
             in_loop = True
             if isinstance(holder, ast.For):
                 bound |= _own_stores([holder.target])
+            # a name that exists before the loop and that the protected block only *updates* (``n += 1``, ``seen = seen | {k}``) is
+            # an accumulator, not the result of this iteration
+            pre, up = set(fi.params()), holder
+            while up is not None and up is not fi.node:
+                outer = mod.parents.get(up)
+                for fld in ('body', 'orelse', 'finalbody'):
+                    block = getattr(outer, fld, None)
+                    if isinstance(block, list) and any(up is x for x in block):
+                        pre |= _own_stores(block[:[j for j, x in enumerate(block) if x is up][0]])
+                up = outer
+            for name in pre & in_try:
+                stores = [x for st in tr.body + tr.orelse for x in ast.walk(st) if isinstance(x, ast.Name) and x.id == name and isinstance(x.ctx, ast.Store)]
+                if stores and all(isinstance(mod.parents.get(x), ast.AugAssign) or (
+                        isinstance(mod.parents.get(x), ast.Assign) and any(isinstance(y, ast.Name) and y.id == name and isinstance(y.ctx, ast.Load)
+                                                                           for y in ast.walk(mod.parents.get(x).value))) for x in stores):
+                    bound.add(name)
             break
         if isinstance(holder, ast.With):
             bound |= _own_stores([i.optional_vars for i in holder.items if i.optional_vars is not None])
